@@ -74,7 +74,7 @@ func ZZ_C18_builder() {
 	b := newBatchCommandsBuilder(8)
 	n := zzParam("entries", 3)
 	first := (n + 1) / 2 // entries pushed before the first build
-	limits := []int64{0, 1, 16}
+	limits := []int64{0, 1, 16, 2} // 2: a Take may hand out more entries than the limit has room for
 	var pushed []*batchCommandsEntry
 	for i := 0; i < first; i++ {
 		e := zzEntry()
@@ -102,7 +102,7 @@ func ZZ_C18_builder() {
 		all = append(all, got...)
 		b.reset()
 	}
-	round(limits[zzChoice("limit1", 3)])
+	round(limits[zzChoice("limit1", 4)])
 	for i := first; i < n; i++ {
 		e := zzEntry()
 		pushed = append(pushed, e)
@@ -111,7 +111,7 @@ func ZZ_C18_builder() {
 	if victim >= first && victim < n {
 		atomic.StoreInt32(&pushed[victim].canceled, 1)
 	}
-	round(limits[zzChoice("limit2", 2)])
+	round([]int64{0, 1, 2}[zzChoice("limit2", 3)])
 	// drain: with a positive limit every remaining entry must come out
 	for k := 0; k < 2*n && b.len() > 0; k++ {
 		round(1)
